@@ -22,6 +22,8 @@ ALPHABET = (
     + [("store", k) for k in (P, L, N)]
     + [("sync", None), ("fetch_paths", None), ("fetch_paths_absent", None)]
 )
+# path operations that move one path between two keys and back (A, B, A ...)
+PATH_OPS = [("sync_q_to", P), ("sync_q_to", N), ("sync_r_to", P), ("sync", None), ("fetch_paths", None)]
 EXTRA_KEYS = ["x%d" % i for i in range(12)]  # to fill / overflow the cache
 CAPS = [1, 2, 3, 10, sys.maxsize // 2]
 
@@ -72,11 +74,18 @@ def run_sequence(under, cap, seq, root, rep, check_bound):
         elif op == "store":
             v = value_of(k)
             a, b = _answer(lambda: w.store_blob(key, v, None)), _answer(lambda: s2.store_blob(key, v, None))
+        elif op in ("sync_q_to", "sync_r_to"):
+            m = OrderedDict([("/p/q" if op == "sync_q_to" else "/r", SM.key_for(k))])
+            a, b = _answer(lambda: w.sync_paths(m)), _answer(lambda: s2.sync_paths(m))
         elif op == "sync":
             m = OrderedDict([("/p/q", SM.key_for(P)), ("/r", SM.key_for(N))])
             a, b = _answer(lambda: w.sync_paths(m)), _answer(lambda: s2.sync_paths(m))
         elif op == "fetch_paths":
             a, b = _answer(lambda: dict(w.fetch_paths(["/p/q", "/r"]))), _answer(lambda: dict(s2.fetch_paths(["/p/q", "/r"])))
+            if a[0] != "ok" and b[0] != "ok":
+                # some path not committed yet: ask for each path on its own
+                a = tuple(_answer(lambda q=q: dict(w.fetch_paths([q]))) for q in ("/p/q", "/r"))
+                b = tuple(_answer(lambda q=q: dict(s2.fetch_paths([q]))) for q in ("/p/q", "/r"))
         elif op == "fetch_paths_absent":
             a, b = _answer(lambda: dict(w.fetch_paths(["/nope"]))), _answer(lambda: dict(s2.fetch_paths(["/nope"])))
         elif op == "fill":
@@ -177,7 +186,7 @@ def run(tier, seed):
     rep.exhaustive = False
     rep.rule = (
         "all operation sequences of length <= %d over %d operations ({has,fetch} x {present,absent,stored-later,None-valued key}, store x {present,stored-later,None-valued}, "
-        "sync, fetch_paths, fetch_paths of an absent path) x capacities %r x underlying {memory, local}, plus random sequences of length 30 with cache-filling bursts; "
+        "sync, fetch_paths, fetch_paths of an absent path), all sequences of <=4 (thorough: <=6) path operations that move a path between two keys and back, x capacities %r x underlying {memory, local}, plus random sequences of length 30 with cache-filling bursts; "
         "lock-step comparison of every answer with a bare twin store; on the local store the number of fetched objects still alive after gc is compared with the capacity. "
         "distinct_nontrivial = distinct (underlying, capacity, sequence) triples that contain at least one fetch."
         % (maxlen, len(ALPHABET), ["unbounded" if c > 1000 else c for c in CAPS])
@@ -186,11 +195,18 @@ def run(tier, seed):
     for _ in range(60 if tier == "quick" else 600):
         s = []
         for _ in range(30):
-            if rng.random() < 0.15:
+            r = rng.random()
+            if r < 0.15:
                 s.append(("fill", rng.choice([1, 2, 3, 4, 11, 12])))
+            elif r < 0.35:
+                s.append(rng.choice(PATH_OPS))
             else:
                 s.append(rng.choice(ALPHABET))
         rnd.append(s)
+    # every sequence of path operations up to length 5 (paths moved between keys and back, queried in between)
+    pathseqs = []
+    for n in range(2, 5 if tier == "quick" else 7):
+        pathseqs += [list(t) for t in itertools.product(PATH_OPS, repeat=n)]
     jobs = []
     for under in ("memory", "local"):
         for cap in CAPS:
@@ -200,6 +216,8 @@ def run(tier, seed):
                 allseq = [s for s in seqs if len(s) <= 2] + [s for i, s in enumerate(s2 for s2 in seqs if len(s2) == 3) if i % 3 == seed % 3] + rnd
             if under == "local" and tier != "quick":
                 allseq = [s for s in seqs if len(s) <= 3] + [s for i, s in enumerate(s2 for s2 in seqs if len(s2) == 4) if i % 6 == seed % 6] + rnd
+            if tier != "quick" or cap in (1, CAPS[-1]):
+                allseq = allseq + pathseqs
             chunk = 250
             for i in range(0, len(allseq), chunk):
                 jobs.append(("seq", (under, cap, allseq[i : i + chunk])))
